@@ -21,6 +21,8 @@ from rv import ToolError, log
 SMALL = os.path.join(rv.VERIF, "harness_small")
 USIZE_MAX = (1 << 64) - 1
 SAT = 1 << 30
+# one harness process runs all drivers of a suite in a few seconds; one that takes this long hangs (a result, not a tool error)
+HARNESS_TIMEOUT = int(os.environ.get("RV_SMALL_TIMEOUT", "150"))
 
 ENGINE = {
     "C14": dict(sub="buf", module="TraceBuffer", cfg="TraceBuffer.cfg"),
@@ -552,7 +554,7 @@ def run_harness(binary, sub, drivers, tag):
         start = os.path.getsize(tfile) if os.path.exists(tfile) else 0
         try:
             p = subprocess.run([binary, sub, dfile, tfile, os.path.join(wd, "files"), str(skip)], stdout=subprocess.PIPE,
-                               stderr=subprocess.STDOUT, text=True, timeout=1800, preexec_fn=no_core)
+                               stderr=subprocess.STDOUT, text=True, timeout=HARNESS_TIMEOUT, preexec_fn=no_core)
             rc = p.returncode
         except subprocess.TimeoutExpired:
             rc = -999
@@ -568,24 +570,31 @@ def run_harness(binary, sub, drivers, tag):
             if not data.endswith(b"\n"):
                 data = data[: data.rfind(b"\n") + 1]
                 f.truncate(start + len(data))
-        cur, nops = None, 0
+        cur, nops, ended = None, 0, True
         for ln in data.decode().splitlines():
             if '"ev":"reset"' in ln:
-                cur, nops = json.loads(ln)["id"], 0
+                cur, nops, ended = json.loads(ln)["id"], 0, False
             elif '"ev":"op"' in ln:
                 nops += 1
+            elif '"ev":"end"' in ln:
+                ended = True
         idx = index.get(json.dumps(cur), skip - 1) if cur is not None else skip - 1
         extra = []
-        if idx < skip or nops >= len(drivers[idx]["ops"]):
-            # died outside any call of a driver (set-up / tear-down): that driver yields no events
+        how = {"k": "died", "rc": rc, "how": "timeout" if rc == -999 else "signal"}
+        if idx < skip or ended:
+            # died before the next driver reported its buffer/arena (set-up): that driver yields no events
             nxt = max(idx + 1, skip)
             if nxt < len(drivers):
                 extra.append({"ev": "reset", "id": drivers[nxt]["id"], "cfg": drivers[nxt]["cfg"], "ok": False,
                               "err": "process died in set-up rc=%s" % rc})
             skip = nxt + 1
+        elif nops >= len(drivers[idx]["ops"]):
+            # every call returned; the process died (or hung) while the handles and the arena were dropped
+            extra.append({"ev": "op", "id": drivers[idx]["id"], "i": nops + 1, "op": {"k": "teardown"}, "res": how})
+            skip = idx + 1
         else:
             d = drivers[idx]
-            extra.append({"ev": "op", "id": d["id"], "i": nops + 1, "op": d["ops"][nops], "res": {"k": "died", "rc": rc}})
+            extra.append({"ev": "op", "id": d["id"], "i": nops + 1, "op": d["ops"][nops], "res": how})
             skip = idx + 1
         with open(tfile, "ab") as f:
             for e in extra:
